@@ -1,6 +1,7 @@
 package main
 
 import (
+	"fmt"
 	"go/ast"
 	"go/token"
 	"go/types"
@@ -37,6 +38,7 @@ func init() {
 			{"C08-R6", "action / policy-list agreement", c08r6},
 			{"C08-R7", "trust-domain migration on every model", c08r7},
 			{"C08-R8", "stateful generators are constructed with their state", c08r8},
+			{"C08-R9", "the TCP/HTTP flag is a constant of the entry point", c08r9},
 		},
 	})
 }
@@ -508,4 +510,115 @@ func c08r8(c *Ctx) {
 	}
 	c.Check("stateful generator literals found", token.NoPos, nTypes >= 2 && nLits >= 2, "fewer constructions of stateful generators than confirmed by hand (srcServiceAccountGenerator: source field and when condition)")
 	c.Floor(3)
+}
+
+// staticCallers: call sites by static callee over the istio functions (memoised per program).
+func (p *Prog) staticCallers() map[*ssa.Function][]ssa.CallInstruction {
+	if p.callersMemo != nil {
+		return p.callersMemo
+	}
+	m := map[*ssa.Function][]ssa.CallInstruction{}
+	for _, fn := range p.AllFuncs {
+		if !isIstioFunc(fn) {
+			continue
+		}
+		eachInstr(fn, func(ins ssa.Instruction) {
+			if ci, ok := ins.(ssa.CallInstruction); ok {
+				if sc := ci.Common().StaticCallee(); sc != nil {
+					m[sc] = append(m[sc], ci)
+				}
+			}
+		})
+	}
+	p.callersMemo = m
+	return m
+}
+
+func isGenericOrigin(fn *ssa.Function) bool {
+	return fn.TypeParams().Len() > 0 && len(fn.TypeArgs()) == 0
+}
+
+// C08-R9: whether rules are generated for a TCP filter chain is said by the entry point, as a constant. HTTP-only
+// fields are unexpressible exactly when forTCP is true; BuildTCPRulesAsHTTPFilter produces an HTTP *filter* that carries
+// TCP *rules* (waypoint tunnel termination), so the flag cannot be derived from the filter type. Every forTCP argument
+// of Builder.build is traced back through parameters to constants at exported entry points, and the (entry point,
+// constant) pairs must be exactly the table below.
+var c08r9Table = map[string]bool{
+	"BuildHTTP":                 false,
+	"BuildTCP":                  true,
+	"BuildTCPRulesAsHTTPFilter": true,
+}
+
+func c08r9(c *Ctx) {
+	p := c.P
+	inner := p.Func(pkgAuthzBuilder, "Builder", "build")
+	idx := -1
+	for i, q := range inner.Params {
+		if q.Name() == "forTCP" {
+			idx = i
+		}
+	}
+	if idx < 0 {
+		c.Check("Builder.build takes the protocol flag", inner.Pos(), false, "Builder.build has no forTCP parameter any more; the rule needs re-confirmation")
+		return
+	}
+	callers := p.staticCallers()
+	seen := map[string]bool{}
+	type key struct {
+		fn *ssa.Function
+		v  ssa.Value
+	}
+	visited := map[key]bool{}
+	var trace func(fn *ssa.Function, v ssa.Value, pos token.Pos, depth int)
+	trace = func(fn *ssa.Function, v ssa.Value, pos token.Pos, depth int) {
+		if visited[key{fn, v}] {
+			return
+		}
+		visited[key{fn, v}] = true
+		if k, ok := constBool(v); ok {
+			name := fn.Name()
+			if o := fn.Origin(); o != nil {
+				name = o.Name()
+			}
+			want, known := c08r9Table[name]
+			seen[name] = true
+			c.Check("protocol flag of entry point "+name, pos, known && want == k,
+				fmt.Sprintf("%s generates authorization rules with forTCP=%v; confirmed: %v (known entry point: %v). With the wrong flag HTTP-only fields of a rule are either dropped from a TCP chain's DENY rule or - worse - matched against the tunnel's CONNECT request instead of making an ALLOW rule match nothing", stableFnName(fn), k, want, known))
+			return
+		}
+		if par, ok := v.(*ssa.Parameter); ok && depth > 0 {
+			pi := paramIndex(fn, par)
+			n := 0
+			for _, cs := range callers[fn] {
+				if isGenericOrigin(cs.Parent()) || isWrapperFn(cs.Parent()) || strings.HasSuffix(p.Fset.Position(cs.Parent().Pos()).Filename, "_test.go") {
+					continue
+				}
+				n++
+				trace(cs.Parent(), cs.Common().Args[pi], cs.Pos(), depth-1)
+			}
+			if n > 0 || isGenericOrigin(fn) {
+				return
+			}
+		}
+		c.Check("protocol flag is a constant of the entry point: "+stableFnName(fn), pos, false,
+			"the forTCP flag that reaches Builder.build here is computed, not a constant handed down from an exported entry point. It cannot be derived from the filter type: BuildTCPRulesAsHTTPFilter builds an HTTP filter from TCP rules, and with forTCP=false there HTTP-only fields stop being unexpressible (an ALLOW rule with hosts:* admits raw TCP, a DENY rule with paths no longer rejects it)")
+	}
+	n := 0
+	for _, cs := range callers[inner] {
+		if strings.HasSuffix(p.Fset.Position(cs.Parent().Pos()).Filename, "_test.go") || isGenericOrigin(cs.Parent()) || isWrapperFn(cs.Parent()) {
+			continue
+		}
+		n++
+		trace(cs.Parent(), cs.Common().Args[idx], cs.Pos(), 3)
+	}
+	for name := range c08r9Table {
+		c.Check("entry point "+name+" reaches Builder.build", inner.Pos(), seen[name], "no constant protocol flag flows from "+name+" to Builder.build")
+	}
+	c.Check("Builder.build call sites found", inner.Pos(), n >= 4, "fewer call sites of Builder.build than confirmed by hand")
+	c.Floor(6)
+}
+
+// isWrapperFn: synthetic method wrappers / thunks / bound-method closures (instances of generics are synthetic too, but real code).
+func isWrapperFn(fn *ssa.Function) bool {
+	return fn.Synthetic != "" && !strings.HasPrefix(fn.Synthetic, "instance of")
 }
